@@ -58,6 +58,19 @@ def app(nq, nt, **kw):
     d.update(kw)
     return d
 
+SWEEP_RULE = ("exhaustive product of boundary classes per field (addresses: empty, malformed, valid-absent, base account with key, pool owner "
+              "without key, continuous vesting account, blocked module account; big integers: nil, negative, zero, small, above MaxInt64; decimals: nil, "
+              "negative, 0, 1/2, 1, above 1; coin lists: nil, empty, nil amount, negative, zero, valid, unsorted, duplicate, invalid denomination, huge; "
+              "denomination lists; names empty/existing/unknown; durations; times; authority; minter lists with nil entry / nil config / unresolved Any / "
+              "nil amounts; sub-distributors with nil source, nil share, nil burn share, nil share value, no sources, empty name, nil pointer; nil requests) "
+              "for all 17 message types (ValidateBasic and handler, each under recover, each on a fresh cache context of the real app with the "
+              "referenced objects present for some classes and absent for others) and all 20 queries; the observed outcome (accept / error / panic) of "
+              "every call is compared with the Coq front-door model's outcome for the same values; non-trivial = the call list is non-empty; distinct = "
+              "distinct (handler, class vector)")
+
+def sweep():
+    return {"kind": "sweep", "profile": "", "n_quick": 1, "n_thorough": 1, "per_shard": 1}
+
 REPLICAS = [{"TZ": "UTC", "GOMAXPROCS": "1"}, {"TZ": "Europe/Warsaw", "GOMAXPROCS": "8"}, {"TZ": "America/St_Johns", "GOMAXPROCS": "3"}]
 
 PROPS = {
@@ -219,6 +232,25 @@ PROPS = {
                       "it is floor(floor(amount*year/period)/supply) with the bracketing inequality that ties rate*supply*period to amount*year; for "
                       "an exponential-step period it is the current step's epoch amount (same recurrence as AmountToMint) annualised over supply. "
                       "The Inflation query is compared with the model after every block and with the next block's actual mint.",
+    },
+    "C20": {
+        "title": "No message or query of the custom modules panics on any input",
+        "model": "Handlers.v: validate_basic, handle (front door of all 17 messages), q_generic, q_account_info; HandlersSweep.v: decoding of the class vectors",
+        "runs": [sweep()],
+        "preds": ["C20."],
+        "rule": SWEEP_RULE,
+        "partial": ["the handlers are modelled up to and including every operation on a raw field value or on looked-up state that can panic "
+                    "(nil Int/Dec arithmetic, NewCoin / AmountOf, nil dereference, empty store key, SendCoins from an insolvent account); the "
+                    "well-formed cores behind them are the models of C05-C09 / C13 (Vest.v, Params.v, Minter.v), connected by the lowering theorems",
+                    "debug log arguments (evaluated lazily by the logger) and telemetry labels are not modelled",
+                    "the hypothesis on the state (valid stored denomination, non-negative pool amounts, 0 <= free <= 1, balance >= locked) is what "
+                    "genesis/parameter validation and C05/C06 establish; it is checked on the sweep's state (Example C20_sweep_env_satisfies_hypotheses)",
+                    "known finding K7 (MsgCreateAccount) is excluded from the universal theorem and characterised exactly instead"],
+        "level_text": "Coq theorems over the front-door model, for all raw values of unbounded size: ValidateBasic of every message never panics; every "
+                      "handler except MsgCreateAccount never panics in any state satisfying the state hypotheses, hence no accepted message crashes its "
+                      "handler; MsgCreateAccount panics exactly for the well-formed requests (K7, refutation theorem with witness); queries never panic; "
+                      "accepted raw distributor/minter parameters are nil-free and the raw validation equals the well-formed decision of Params.v / "
+                      "Minter.v. Every (handler, class vector) of the exhaustive sweep is executed on the real keepers and its outcome must equal the model's.",
     },
     "C05": {
         "title": "Vesting module account is always exactly backed by its pools",
